@@ -2838,6 +2838,16 @@ example : gRun ⟨none, true, []⟩ [.assign 4, .funDecl false, .del] = Spec.gRu
 example : ((gRun ⟨none, true, []⟩ [.assign 4, .funDecl false, .del])[2]?).map (·.1) = some (.bool false) := by decide
 example : ((gRun ⟨none, true, []⟩ [.varDecl true, .del])[1]?).map (·.1) = some (.bool true) := by decide
 
+/-! ## the §15.2.3 functions on a non-object argument -/
+
+/-- every Object.* function of §15.2.3 except getOwnPropertyNames rejects a non-object first argument
+    exactly as ES5 says (create accepts null) -/
+theorem objFnPrim_refines (f : ObjFn) (a : PrimArg) (h : devPrim f = false) : objFnPrim f a = Spec.objFnPrim f a := by
+  cases f <;> cases a <;> first | rfl | (exact absurd h (by decide))
+
+/-- `Object.getOwnPropertyNames(1)` is [] (ES5: TypeError) -/
+example : objFnPrim .getOwnPropertyNames .number ≠ Spec.objFnPrim .getOwnPropertyNames .number := by decide
+
 /-! ## Non-vacuity of the hypotheses -/
 
 /-- a heap with a data and an accessor property … -/
